@@ -191,6 +191,11 @@ def histories(draw, tier):
         pre = [["borrow", 0]] + [["next", 1]] * draw(st.integers(0, 2)) + [["close", 0], ["asend", 1], ["next", 1],
                                                                            ["next-captured", 1], ["next-u"]]
         ops = pre + ops
+    elif draw(st.integers(0, 3)) == 0:
+        # ... and the other way round: the CHILD loan is closed (and tried), the parent handle goes on working
+        pre = [["borrow", 0]] + [["next", 1]] * draw(st.integers(0, 2)) + [["close", 1], ["next", 1], ["next", 0], ["next", 0],
+                                                                           ["asend", 0], ["next-u"]]
+        ops = pre + ops
     fault_at = draw(st.one_of(st.none(), st.none(), st.integers(1, 6)))
     if fault_at and draw(st.booleans()):
         # make sure the failure is met through a handle, which is then closed and tried again by every method
